@@ -215,6 +215,8 @@ def coverage_from(results, summary, spec, tier):
         "solver_queries": q,
         "solver_s": round(qs, 2),
         "per_harness": by_fn,
+        "slowest_partitions": [{"fn": r["fn"], "cfg": r.get("cfg"), "paths": r.get("paths"), "cpu_s": r.get("cpu_s")}
+                               for r in sorted(checks, key=lambda r: -(r.get("cpu_s") or 0))[:5]],
         "event_counters": counters,
         "functions_encoded": sorted(fx) or list(getattr(spec, "FUNCTIONS", [])),
         "bounds": getattr(spec, "BOUNDS", {}).get(tier, ""),
